@@ -12,13 +12,15 @@ set_option linter.unusedSimpArgs false
 namespace ZxVerif.Z80
 variable {β : Type} [Bus β]
 
-/-- a preorder on bus states closed under every primitive bus operation -/
-structure BusClosed (R : β → β → Prop) : Prop where
+/-- a preorder on bus states closed under every primitive bus operation, the timed ones with at most
+`K` clocks per call (the CPU never asks for more than 7: the interrupt acknowledge) -/
+structure BusClosedB (K : Nat) (R : β → β → Prop) : Prop where
+  big : 7 ≤ K
   refl : ∀ b, R b b
   trans : ∀ {a b c}, R a b → R b c → R a c
-  waitMreq : ∀ a k b, R b (Bus.waitMreq a k b)
-  waitNoMreq : ∀ a k b, R b (Bus.waitNoMreq a k b)
-  waitInternal : ∀ k b, R b (Bus.waitInternal k b)
+  waitMreq : ∀ a k b, k ≤ K → R b (Bus.waitMreq a k b)
+  waitNoMreq : ∀ a k b, k ≤ K → R b (Bus.waitNoMreq a k b)
+  waitInternal : ∀ k b, k ≤ K → R b (Bus.waitInternal k b)
   readInternal : ∀ a b, R b (Bus.readInternal a b).2
   writeInternal : ∀ a v b, R b (Bus.writeInternal a v b)
   readIo : ∀ p b, R b (Bus.readIo p b).2
@@ -28,14 +30,14 @@ structure BusClosed (R : β → β → Prop) : Prop where
   halt : ∀ on b, R b (Bus.halt on b)
   pcCallback : ∀ a b, R b (Bus.pcCallback a b)
 
-namespace BusClosed
-variable {R : β → β → Prop} (h : BusClosed R)
+namespace BusClosedB
+variable {K : Nat} {R : β → β → Prop} (h : BusClosedB K R)
 include h
 
 /-! continuation forms: `R b x → R b (op x)` -/
-theorem k_waitMreq {b x} (a k) (hx : R b x) : R b (Bus.waitMreq a k x) := h.trans hx (h.waitMreq a k x)
-theorem k_waitNoMreq {b x} (a k) (hx : R b x) : R b (Bus.waitNoMreq a k x) := h.trans hx (h.waitNoMreq a k x)
-theorem k_waitInternal {b x} (k) (hx : R b x) : R b (Bus.waitInternal k x) := h.trans hx (h.waitInternal k x)
+theorem k_waitMreq {b x} (a k) (hk : k ≤ K) (hx : R b x) : R b (Bus.waitMreq a k x) := h.trans hx (h.waitMreq a k x hk)
+theorem k_waitNoMreq {b x} (a k) (hk : k ≤ K) (hx : R b x) : R b (Bus.waitNoMreq a k x) := h.trans hx (h.waitNoMreq a k x hk)
+theorem k_waitInternal {b x} (k) (hk : k ≤ K) (hx : R b x) : R b (Bus.waitInternal k x) := h.trans hx (h.waitInternal k x hk)
 theorem k_readInternal {b x} (a) (hx : R b x) : R b (Bus.readInternal a x).2 := h.trans hx (h.readInternal a x)
 theorem k_writeInternal {b x} (a v) (hx : R b x) : R b (Bus.writeInternal a v x) := h.trans hx (h.writeInternal a v x)
 theorem k_readIo {b x} (p) (hx : R b x) : R b (Bus.readIo p x).2 := h.trans hx (h.readIo p x)
@@ -45,60 +47,67 @@ theorem k_reti {b x} (hx : R b x) : R b (Bus.reti x) := h.trans hx (h.reti x)
 theorem k_halt {b x} (on) (hx : R b x) : R b (Bus.halt on x) := h.trans hx (h.halt on x)
 theorem k_pcCallback {b x} (a) (hx : R b x) : R b (Bus.pcCallback a x) := h.trans hx (h.pcCallback a x)
 
-theorem k_read {b x} (a k) (hx : R b x) : R b (read a k x).2 :=
-  h.k_readInternal a (h.k_waitMreq a k hx)
+theorem k_read {b x} (a k) (hk : k ≤ K) (hx : R b x) : R b (read a k x).2 :=
+  h.k_readInternal a (h.k_waitMreq a k hk hx)
 
-theorem k_write {b x} (a v k) (hx : R b x) : R b (write a v k x) :=
-  h.k_writeInternal a v (h.k_waitMreq a k hx)
+theorem k_write {b x} (a v k) (hk : k ≤ K) (hx : R b x) : R b (write a v k x) :=
+  h.k_writeInternal a v (h.k_waitMreq a k hk hx)
+
+theorem one_le : 1 ≤ K := by have := h.big; omega
+theorem three_le : 3 ≤ K := by have := h.big; omega
 
 theorem k_waitLoop {b x} (a n) (hx : R b x) : R b (waitLoop a n x) := by
   induction n generalizing x with
   | zero => exact hx
-  | succ n ih => exact ih (h.k_waitNoMreq a 1 hx)
+  | succ n ih => exact ih (h.k_waitNoMreq a 1 h.one_le hx)
 
-theorem k_readWord {b x} (a k) (hx : R b x) : R b (readWord a k x).2 :=
-  h.k_read (a + 1) k (h.k_read a k hx)
+theorem k_readWord {b x} (a k) (hk : k ≤ K) (hx : R b x) : R b (readWord a k x).2 :=
+  h.k_read (a + 1) k hk (h.k_read a k hk hx)
 
-theorem k_writeWord {b x} (a w k) (hx : R b x) : R b (writeWord a w k x) :=
-  h.k_write (a + 1) (hi w) k (h.k_write a (lo w) k hx)
+theorem k_writeWord {b x} (a w k) (hk : k ≤ K) (hx : R b x) : R b (writeWord a w k x) :=
+  h.k_write (a + 1) (hi w) k hk (h.k_write a (lo w) k hk hx)
 
-theorem k_fetchByte {b x} (c s) (hx : R b x) : R b (fetchByte c s x).2.2 := h.k_read s.pc c hx
+theorem k_fetchByte {b x} (c s) (hk : c ≤ K) (hx : R b x) : R b (fetchByte c s x).2.2 := h.k_read s.pc c hk hx
 
-theorem k_fetchWord {b x} (c s) (hx : R b x) : R b (fetchWord c s x).2.2 :=
-  h.k_read (s.pc + 1) c (h.k_read s.pc c hx)
+theorem k_fetchWord {b x} (c s) (hk : c ≤ K) (hx : R b x) : R b (fetchWord c s x).2.2 :=
+  h.k_read (s.pc + 1) c hk (h.k_read s.pc c hk hx)
 
-theorem k_push16 {b x} (w c s) (hx : R b x) : R b (push16 w c s x).2 :=
-  h.k_write (s.sp - 2) (lo w) c (h.k_write (s.sp - 1) (hi w) c hx)
+theorem k_push16 {b x} (w c s) (hk : c ≤ K) (hx : R b x) : R b (push16 w c s x).2 :=
+  h.k_write (s.sp - 2) (lo w) c hk (h.k_write (s.sp - 1) (hi w) c hk hx)
 
-theorem k_pop16 {b x} (c s) (hx : R b x) : R b (pop16 c s x).2.2 :=
-  h.k_read (s.sp + 1) c (h.k_read s.sp c hx)
+theorem k_pop16 {b x} (c s) (hk : c ≤ K) (hx : R b x) : R b (pop16 c s x).2.2 :=
+  h.k_read (s.sp + 1) c hk (h.k_read s.sp c hk hx)
 
 theorem k_operandAddr {b x} (p s) (hx : R b x) : R b (operandAddr p s x).2.2 := by
   cases p
   · exact hx
-  · exact h.k_waitLoop _ 5 (h.k_read _ 3 hx)
-  · exact h.k_waitLoop _ 5 (h.k_read _ 3 hx)
+  · exact h.k_waitLoop _ 5 (h.k_read _ 3 h.three_le hx)
+  · exact h.k_waitLoop _ 5 (h.k_read _ 3 h.three_le hx)
 
 theorem k_execCall {b x} (t m s) (hx : R b x) : R b (execCall t m s x).2 := by
   unfold execCall
   cases t
   · simp only [Bool.false_eq_true, if_false]
-    exact h.k_read _ 3 (h.k_fetchByte 3 s hx)
+    exact h.k_read _ 3 h.three_le (h.k_fetchByte 3 s h.three_le hx)
   · simp only [if_true]
-    exact h.k_push16 _ 3 _ (h.k_waitNoMreq _ 1 (h.k_read _ 3 (h.k_fetchByte 3 s hx)))
+    exact h.k_push16 _ 3 _ h.three_le (h.k_waitNoMreq _ 1 h.one_le (h.k_read _ 3 h.three_le (h.k_fetchByte 3 s h.three_le hx)))
+
+/-- `k ≤ K` for the literal clock counts of the model -/
+macro "bnd" h:ident : tactic => `(tactic| (have hbig := BusClosedB.big $h; omega))
 
 /-- backward chaining through the continuation forms -/
 macro "bus_chain" h:ident hx:ident : tactic => `(tactic|
   repeat (first
     | exact $hx
-    | apply BusClosed.k_write $h | apply BusClosed.k_read $h | apply BusClosed.k_waitLoop $h
-    | apply BusClosed.k_readWord $h | apply BusClosed.k_writeWord $h
-    | apply BusClosed.k_fetchByte $h | apply BusClosed.k_fetchWord $h
-    | apply BusClosed.k_push16 $h | apply BusClosed.k_pop16 $h
-    | apply BusClosed.k_operandAddr $h | apply BusClosed.k_execCall $h
-    | apply BusClosed.k_waitNoMreq $h | apply BusClosed.k_waitMreq $h | apply BusClosed.k_waitInternal $h
-    | apply BusClosed.k_readIo $h | apply BusClosed.k_writeIo $h | apply BusClosed.k_readInterrupt $h
-    | apply BusClosed.k_reti $h | apply BusClosed.k_halt $h | apply BusClosed.k_pcCallback $h))
+    | (have hbig := BusClosedB.big $h; omega)
+    | apply BusClosedB.k_write $h | apply BusClosedB.k_read $h | apply BusClosedB.k_waitLoop $h
+    | apply BusClosedB.k_readWord $h | apply BusClosedB.k_writeWord $h
+    | apply BusClosedB.k_fetchByte $h | apply BusClosedB.k_fetchWord $h
+    | apply BusClosedB.k_push16 $h | apply BusClosedB.k_pop16 $h
+    | apply BusClosedB.k_operandAddr $h | apply BusClosedB.k_execCall $h
+    | apply BusClosedB.k_waitNoMreq $h | apply BusClosedB.k_waitMreq $h | apply BusClosedB.k_waitInternal $h
+    | apply BusClosedB.k_readIo $h | apply BusClosedB.k_writeIo $h | apply BusClosedB.k_readInterrupt $h
+    | apply BusClosedB.k_reti $h | apply BusClosedB.k_halt $h | apply BusClosedB.k_pcCallback $h))
 
 theorem k_exec {b x} (v p i s) (hx : R b x) : R b (exec v p i s x).2 := by
   cases i <;> simp only [exec]
@@ -123,12 +132,12 @@ theorem k_execCB {b x} (s) (hx : R b x) : R b (execCB s x).2 := by
   repeat' split
   all_goals (try simp only [])
   all_goals first
-    | exact h.k_cbMem _ _ _ _ (h.k_fetchByte _ _ hx)
-    | exact h.k_fetchByte _ _ hx
+    | exact h.k_cbMem _ _ _ _ (h.k_fetchByte _ _ (by bnd h) hx)
+    | exact h.k_fetchByte _ _ (by bnd h) hx
 
 theorem k_execIdxCB {b x} (p s) (hx : R b x) : R b (execIdxCB p s x).2 := by
   simp only [execIdxCB]
-  exact h.k_cbMem _ _ _ _ (h.k_waitLoop _ _ (h.k_read _ _ (h.k_fetchByte _ _ hx)))
+  exact h.k_cbMem _ _ _ _ (h.k_waitLoop _ _ (h.k_read _ _ (by bnd h) (h.k_fetchByte _ _ (by bnd h) hx)))
 
 theorem k_releaseHalt {b x} (s) (hx : R b x) : R b (releaseHalt s x).2 := by
   unfold releaseHalt; split
@@ -137,13 +146,13 @@ theorem k_releaseHalt {b x} (s) (hx : R b x) : R b (releaseHalt s x).2 := by
 
 theorem k_acceptNmi {b x} (s) (hx : R b x) : R b (acceptNmi s x).2 := by
   simp only [acceptNmi]
-  exact h.k_push16 _ _ _ (h.k_waitLoop _ _ (h.k_releaseHalt _ hx))
+  exact h.k_push16 _ _ _ (by bnd h) (h.k_waitLoop _ _ (h.k_releaseHalt _ hx))
 
 theorem k_acceptInt {b x} (s) (hx : R b x) : R b (acceptInt s x).2 := by
   simp only [acceptInt]
   split
-  · exact h.k_waitInternal _ (h.k_readWord _ _ (h.k_readInterrupt (h.k_push16 _ _ _ (h.k_releaseHalt _ hx))))
-  · exact h.k_waitInternal _ (h.k_push16 _ _ _ (h.k_releaseHalt _ hx))
+  · exact h.k_waitInternal _ (by bnd h) (h.k_readWord _ _ (by bnd h) (h.k_readInterrupt (h.k_push16 _ _ _ (by bnd h) (h.k_releaseHalt _ hx))))
+  · exact h.k_waitInternal _ (by bnd h) (h.k_push16 _ _ _ (by bnd h) (h.k_releaseHalt _ hx))
 
 theorem k_handleInterrupt {b x} (s) (hx : R b x) : R b (handleInterrupt s x).2 := by
   unfold handleInterrupt
@@ -163,13 +172,13 @@ theorem k_afterIndexPrefix {b x} (v p s) (hx : R b x) : R b (afterIndexPrefix v 
   simp only [afterIndexPrefix]
   split
   all_goals first
-    | exact h.k_fetchByte _ _ hx
-    | exact h.k_execIdxCB _ _ (h.k_fetchByte _ _ hx)
-    | exact h.k_exec _ _ _ _ (h.k_fetchByte _ _ hx)
+    | exact h.k_fetchByte _ _ (by bnd h) hx
+    | exact h.k_execIdxCB _ _ (h.k_fetchByte _ _ (by bnd h) hx)
+    | exact h.k_exec _ _ _ _ (h.k_fetchByte _ _ (by bnd h) hx)
 
 theorem k_afterEDPrefix {b x} (s) (hx : R b x) : R b (afterEDPrefix s x).2 := by
   simp only [afterEDPrefix]
-  exact h.k_execED _ _ (h.k_fetchByte _ _ hx)
+  exact h.k_execED _ _ (h.k_fetchByte _ _ (by bnd h) hx)
 
 theorem k_execOne {b x} (v s) (hx : R b x) : R b (execOne v s x).2 := by
   unfold execOne
@@ -181,10 +190,10 @@ theorem k_execOne {b x} (v s) (hx : R b x) : R b (execOne v s x).2 := by
   · simp only []
     split
     all_goals first
-      | exact h.k_afterIndexPrefix _ _ _ (h.k_fetchByte _ _ hx)
-      | exact h.k_afterEDPrefix _ (h.k_fetchByte _ _ hx)
-      | exact h.k_execCB _ (h.k_fetchByte _ _ hx)
-      | exact h.k_exec _ _ _ _ (h.k_fetchByte _ _ hx)
+      | exact h.k_afterIndexPrefix _ _ _ (h.k_fetchByte _ _ (by bnd h) hx)
+      | exact h.k_afterEDPrefix _ (h.k_fetchByte _ _ (by bnd h) hx)
+      | exact h.k_execCB _ (h.k_fetchByte _ _ (by bnd h) hx)
+      | exact h.k_exec _ _ _ _ (h.k_fetchByte _ _ (by bnd h) hx)
 
 /-- every branch of `execOne` starts with a 4-T opcode fetch at PC; everything after that fetch
 stays inside the preorder -/
@@ -237,6 +246,53 @@ theorem run (v : Variant) (n : Nat) (sb : Cpu × β) : R sb.2 (Z80.run v n sb).2
   | succ n ih =>
     simp only [Z80.run]
     exact h.trans (h.emulate v sb.1 sb.2) (ih _)
+
+end BusClosedB
+
+/-- a preorder on bus states closed under every primitive bus operation, whatever the clock counts -/
+structure BusClosed (R : β → β → Prop) : Prop where
+  refl : ∀ b, R b b
+  trans : ∀ {a b c}, R a b → R b c → R a c
+  waitMreq : ∀ a k b, R b (Bus.waitMreq a k b)
+  waitNoMreq : ∀ a k b, R b (Bus.waitNoMreq a k b)
+  waitInternal : ∀ k b, R b (Bus.waitInternal k b)
+  readInternal : ∀ a b, R b (Bus.readInternal a b).2
+  writeInternal : ∀ a v b, R b (Bus.writeInternal a v b)
+  readIo : ∀ p b, R b (Bus.readIo p b).2
+  writeIo : ∀ p v b, R b (Bus.writeIo p v b)
+  readInterrupt : ∀ b, R b (Bus.readInterrupt b).2
+  reti : ∀ b, R b (Bus.reti b)
+  halt : ∀ on b, R b (Bus.halt on b)
+  pcCallback : ∀ a b, R b (Bus.pcCallback a b)
+
+namespace BusClosed
+variable {R : β → β → Prop} (h : BusClosed R)
+include h
+
+theorem toB : BusClosedB 7 R where
+  big := Nat.le_refl 7
+  refl := h.refl
+  trans := h.trans
+  waitMreq a k b _ := h.waitMreq a k b
+  waitNoMreq a k b _ := h.waitNoMreq a k b
+  waitInternal k b _ := h.waitInternal k b
+  readInternal := h.readInternal
+  writeInternal := h.writeInternal
+  readIo := h.readIo
+  writeIo := h.writeIo
+  readInterrupt := h.readInterrupt
+  reti := h.reti
+  halt := h.halt
+  pcCallback := h.pcCallback
+
+theorem k_checkInterrupt {b x} (s) (hx : R b x) : R b (checkInterrupt s x).2 := h.toB.k_checkInterrupt s hx
+
+theorem execOne_after_fetch (v : Variant) (s : Cpu) (b : β) :
+    ∃ s', R (fetchByte 4 s' b).2.2 (execOne v s b).2 := h.toB.execOne_after_fetch v s b
+
+theorem emulate (v : Variant) (s : Cpu) (b : β) : R b (emulate v (s, b)).2 := h.toB.emulate v s b
+
+theorem run (v : Variant) (n : Nat) (sb : Cpu × β) : R sb.2 (Z80.run v n sb).2 := h.toB.run v n sb
 
 end BusClosed
 end ZxVerif.Z80
